@@ -31,3 +31,4 @@ def run(ctx):
     n5 = dmlrules.fastpath_guard_depends(ctx, "X5.FASTPATH-GUARD")
     ctx.floor("X5.fast_paths", n5, 1)
     dmlrules.index_value_is_row_key(ctx, "X6.INDEX-VALUE")
+    dmlrules.undo_restores_entry(ctx, "X7.UNDO-RESTORES-ENTRY")
